@@ -5,6 +5,7 @@ mod alloc;
 mod core;
 mod uni;
 mod h;
+mod ops;
 mod fref;
 #[cfg(not(feature = "lite"))]
 mod explore;
